@@ -1,5 +1,8 @@
 import Gallia.Proofs.Lemmas.PenlogNav
+import Gallia.Proofs.Lemmas.PenlogWriter
+import Gallia.Proofs.Lemmas.PenlogArgs
 import Gallia.Gen.C17Levels
+import Gallia.Gen.C17Hr
 /-
   C17 — Log records written by a run are read back exactly, in any navigation mode.
   Property theorems only; helper lemmas are in `Proofs/Lemmas/Penlog{Str,Line,Nav}.lean`.
@@ -9,6 +12,12 @@ import Gallia.Gen.C17Levels
   navigation mode with priority threshold `p`.  All theorems hold for every list of records whose text fields
   are `okText` (`Rec.WF`) — any length, any levels, any valid Unicode text (`wf_of_scalar`), and even Python
   strings with lone surrogates as long as no high surrogate is directly followed by a low one.
+
+  Second part (from `### the record schema` on): the schema on either side of `Rec` (`Model/PenlogSchema.lean`:
+  `LogRec` -> `QueueHandler.prepare` -> `_JSONFormatter.format` -> line -> `PenlogRecord.parse_json`, with the
+  timestamp through `isoformat` / `fromisoformat`), the `hr` command line (`Model/PenlogHr.lean`: `hrPlan`, `hrRun`)
+  and the container handling.  zstandard, gzip and `json.loads` are functions of an environment `Env`; what the
+  theorems need from them is stated as hypotheses (`Env.LoadsOk`, `Env.Decodes`) and shown satisfiable.
 -/
 namespace Gallia.C17
 open Gallia Gallia.Penlog
@@ -77,8 +86,10 @@ theorem wf_of_scalar (r : Rec) (h : r.Scalar) : r.WF := by
     fun t ht s hs => okText_of_scalar _ (h5 t ht s hs), okText_of_scalar _ h6,
     fun s hs => okText_of_scalar _ (h7 s hs), okText_of_scalar _ h8, okText_of_scalar _ h9⟩
 
-/-- every written line parses back to the record that was logged: all eleven fields, with or without prefix -/
-theorem record_roundtrip (pfx : Bool) (r : Rec) (h : r.WF) : parseLine (writeLine pfx r) = some r :=
+/-- every written line parses back to the flat record that was written: all eleven members, with or without
+    prefix (this was `record_roundtrip` before the schema was modelled; `record_roundtrip` below now starts from
+    the `logging.LogRecord` and ends at the `PenlogRecord`) -/
+theorem line_roundtrip (pfx : Bool) (r : Rec) (h : r.WF) : parseLine (writeLine pfx r) = some r :=
   parseLine_writeLine pfx r h
 
 /-- the priority the filter looks at (the `<prio>` prefix when present, else the JSON field) is the record's -/
@@ -219,26 +230,339 @@ theorem each_once (file : Bs) (m : Mode) : (select file m p).Nodup := by
   | tail n => exact List.Nodup.sublist (List.filter_sublist.trans (List.drop_sublist _ _)) hr
   | head n => exact List.Nodup.sublist ((List.take_sublist _ _).trans List.filter_sublist) hr
 
-/-! ### non-vacuity -/
+/-! ### the record schema: `logging.LogRecord` -> line -> `PenlogRecord` -/
 
-/-- a record with a newline, a quote, a control character and an astral code point in its text, and tags -/
-def sample : Rec :=
-  { module := [103], host := [104], data := [10, 34, 0, 0x1F600, 92], datetime := [50], prio := 6,
-    tags := some [[97, 10], []], line := [47], stacktrace := none, levelNo := 20, levelName := [73], funcName := [102] }
+/-- `record_roundtrip`: a record logged at one of the seven levels (the level table is regenerated, see
+    `loglevels_agree`), with any valid Unicode text, tags present / empty / absent, an exception text or none, a
+    timestamp with microseconds and any whole-second UTC offset, goes through `QueueHandler.prepare`,
+    `_JSONFormatter.format` and `_ZstdFileHandler.emit` to a line that `PenlogRecord.parse_json` reads back as
+    exactly `expectRead`: same name, host, message (the exception text and the stack merged in by the queue), aware timestamp,
+    priority (which maps back to the level), tags, call site, level number / name, function name; and the priority
+    the filter looks at is the record's.  With and without the `<prio>` prefix. -/
+theorem record_roundtrip (E : Env) (hE : E.LoadsOk) (pfx : Bool) (host : Str) (lr : LogRec) (h : lr.WF host) :
+    ∃ p line, fromLevel lr.levelno = some p ∧ toLevel p = some lr.levelno ∧ emitLine pfx host lr = some line ∧
+      lineRecord E line = .ok (expectRead host (queuePrepare lr) p) ∧ linePrioE E line = .ok (p : Int) := by
+  obtain ⟨p, r, hp, htl, hf, hrp, ⟨hwf, hp8, hdt⟩, hread⟩ := formatRec_spec host (queuePrepare lr) (queuePrepare_wf host lr h)
+  have hlv : (queuePrepare lr).levelno = lr.levelno := rfl
+  rw [hlv] at hp htl
+  refine ⟨p, writeLine pfx r, hp, htl, by simp [emitLine, hf], ?_, ?_⟩
+  · rw [lineRecord_writeLine E hE pfx r hwf, readObj_recObj r (dtOf r) hdt hp8, hread]
+  · rw [linePrioE_writeLine E hE pfx r hwf (dtOf r) hdt hp8, hrp]
 
-theorem sample_wf : sample.WF := by
-  apply wf_of_scalar
-  simp only [Rec.Scalar, sample]
+/-- the timestamp round trip on its own: `fromisoformat(d.isoformat()) == d` for every valid datetime — any date
+    1..9999, microseconds zero (no fraction written) or not, aware with any whole-second offset or naive -/
+theorem timestamp_roundtrip (d : DT) (hv : d.Valid) : parseIso (isoformat d) = .ok d := parseIso_isoformat d hv
+
+/-- the JSON object written has exactly the twelve members of `_PenlogRecordV2`, in its order ((T), regenerated) -/
+theorem written_keys_exact (r : Rec) : (recObj r).map (·.1) = Gen.C17Hr.writerKeys := by
+  simp only [recObj, List.map_cons, List.map_nil]
   decide
 
-example : records (fileOf true [sample, { sample with prio := 3 }]) .reverse 4 = [some { sample with prio := 3 }] := by
-  have hw : ∀ r ∈ [sample, { sample with prio := 3 }], r.WF := by
-    intro r hr
-    simp only [List.mem_cons, List.not_mem_nil, or_false] at hr
-    rcases hr with rfl | rfl
-    · exact sample_wf
-    · exact sample_wf
-  rw [reverse_exact true _ hw 4]
+/-- (T) the members `parse_json` requires / reads when present, and the version it insists on -/
+theorem schema_keys_agree :
+    Gen.C17Hr.requiredKeys = requiredKeys ∧ Gen.C17Hr.optionalKeys = optionalKeys ∧ Gen.C17Hr.version = 2 := by decide
+
+/-- `unknown_keys_ignored`: members with names `parse_json` does not know make no difference, wherever they stand
+    and whatever they hold -/
+theorem unknown_keys_ignored (o : JObj) : readObj (o.filter (fun kv => knownKeys.contains kv.1)) = readObj o :=
+  readObj_congr _ _ (fun k hk => jget_filter o knownKeys k hk)
+
+/-- `missing_optional_keys_default`: an optional member that is absent reads exactly like the same member given as
+    `null` (`record[k] if k in record else None`), for each of the six optional members -/
+theorem missing_optional_keys_default (o : JObj) (k : Str) (hk : k ∈ optionalKeys) (hab : jget o k = none) :
+    readObj o = readObj (o ++ [(k, .null)]) := by
+  apply readObj_congr_opt
+  · intro k' hk'
+    rw [jget_append_single]
+    have hne : (k == k') = false := by
+      have : k ≠ k' := by
+        intro e; subst e
+        revert hk hk'
+        simp only [requiredKeys, optionalKeys, List.mem_cons, List.not_mem_nil, or_false]
+        rintro (rfl | rfl | rfl | rfl | rfl | rfl) <;> decide
+      simpa using this
+    simp [hne]
+  · intro k' _
+    unfold jopt
+    rw [jget_append_single]
+    by_cases he : (k == k') = true
+    · have : k = k' := by simpa using he
+      subst this
+      simp [hab]
+    · simp [he]
+
+/-- a missing required member is never defaulted: the record is refused -/
+theorem missing_required_key_refused (o : JObj) (k : Str) (hk : k ∈ requiredKeys) (hab : jget o k = none) :
+    ∀ r, readObj o ≠ .ok r :=
+  fun r hr => readObj_ok_required o r hr k hk hab
+
+/-! ### the `hr` command line -/
+
+/-- destination codes of the regenerated parser table -/
+def destCode : OptId → Nat
+  | .help => 0 | .prio => 1 | .tail => 2 | .head => 3 | .reverse => 4 | .lines => 5 | .color => 6
+
+/-- (T) the parser `hr.parse_args()` builds has exactly the modelled option strings, each with the modelled
+    destination and arity; one positional `FILE+`; abbreviations allowed; `--tail`, `--head`, `--reverse` mutually
+    exclusive; the `--color` choices -/
+theorem hr_parser_agrees :
+    Gen.C17Hr.options.length = (shortOpts ++ longOpts).length ∧
+    (∀ o ∈ Gen.C17Hr.options, (lookupOpt o.1).map (fun q => (destCode q.1, q.1.takesArg)) = some (o.2.1, o.2.2)) ∧
+    Gen.C17Hr.mutex = [destCode .tail, destCode .head, destCode .reverse] ∧ Gen.C17Hr.fileNargs = [43] ∧
+    Gen.C17Hr.allowAbbrev = true ∧ Gen.C17Hr.prefixChars = [45] ∧ Gen.C17Hr.colorChoices = colorChoices ∧
+    Gen.C17Hr.defaultColor = [97, 117, 116, 111] := by decide
+
+/-- `hr_defaults`: a command line of file names only (each not starting with `-`, or `-` itself) reads them in
+    order, forward, with the regenerated defaults: 100 lines, priority INFO, colour auto -/
+theorem hr_defaults (files : List Str) (hne : files ≠ []) (h : ∀ f ∈ files, FileTok f) :
+    hrPlan files = .plan { files := files.map normPath, mode := .forward, n := Gen.C17Hr.defaultLines,
+                           prio := Gen.C17Hr.defaultPriority, color := .auto } :=
+  hrPlan_files files hne h
+
+/-- `hr_modes_exclusive`: a plan has one mode, and a command line naming two different modes (any of the exact
+    spellings `-t --tail --head -r --reverse`, anywhere before a `--`) is refused, whatever else it contains -/
+theorem hr_modes_exclusive (argv : List Str) (a b : Str) (ma mb : HrMode) (ha : (a, ma) ∈ modeToks) (hb : (b, mb) ∈ modeToks)
+    (hne : ma ≠ mb) (hain : a ∈ argv.takeWhile (fun x => x != ddTok)) (hbin : b ∈ argv.takeWhile (fun x => x != ddTok)) :
+    ∀ p, hrPlan argv ≠ .plan p :=
+  hrPlan_two_modes argv a b ma mb ha hb hne hain hbin
+
+/-- the same for every argument string argparse resolves to a bare mode option, i.e. also the unique abbreviations
+    (`--ta`, `--hea`, `--rev`, ...): two of them naming different modes are refused -/
+theorem hr_modes_exclusive_abbrev (argv : List Str) (a b : Str) (ida idb : OptId) (la lb : Bool) (ma mb : HrMode)
+    (hca : classify a = some (.opt ida la none)) (hma : modeOf ida = some ma)
+    (hcb : classify b = some (.opt idb lb none)) (hmb : modeOf idb = some mb)
+    (hne : ma ≠ mb) (hain : a ∈ argv.takeWhile (fun x => x != ddTok)) (hbin : b ∈ argv.takeWhile (fun x => x != ddTok)) :
+    ∀ p, hrPlan argv ≠ .plan p :=
+  hrPlan_two_modes_gen argv a b ida idb la lb ma mb hca hma hcb hmb hne hain hbin
+
+/-- ... and a mode option that is accepted is the plan's mode -/
+theorem hr_mode_taken (argv : List Str) (a : Str) (m : HrMode) (p : Plan) (ha : (a, m) ∈ modeToks)
+    (hain : a ∈ argv.takeWhile (fun x => x != ddTok)) (hp : hrPlan argv = .plan p) : p.mode = m := by
+  unfold hrPlan at hp
+  cases hc : classifyAll argv with
+  | none => simp [hc] at hp
+  | some cs =>
+    simp only [hc] at hp
+    obtain ⟨id, l, hca, hma⟩ := modeToks_classify (a, m) ha
+    exact (runArgs_modes {} cs p excl_init hp).2 id l m hma (mem_classifyAll argv cs hc a _ hain hca)
+
+/-- `hr_priority_names`: (T) the regenerated names are the modelled ones, with values 0..8; each name and its
+    number denote the same threshold; letter case does not matter -/
+theorem hr_priority_names :
+    Gen.C17Hr.prioNames = prioNames ∧ Gen.C17Hr.prioValues = List.range 9 ∧
+    (∀ p, p < 9 → fromStr (prioNames.getD p []) = some p ∧ fromStr (natDec p) = some p) ∧
+    (∀ s, fromStr (s.map lowerAscii) = fromStr s) := by
+  refine ⟨by decide, by decide, ?_, fromStr_lower⟩
+  intro p hp
+  rw [natDec_small p (by omega)]
+  exact fromStr_names p hp
+
+/-- ... hence `-p NAME` and `-p NUMBER` give the same plan, whatever follows -/
+theorem hr_priority_names_plan (p : Nat) (hp : p < 9) (rest : List Str) :
+    hrPlan ([45, 112] :: prioNames.getD p [] :: rest) = hrPlan ([45, 112] :: natDec p :: rest) ∧
+    hrPlan ([45, 45, 112, 114, 105, 111, 114, 105, 116, 121] :: prioNames.getD p [] :: rest) =
+      hrPlan ([45, 45, 112, 114, 105, 111, 114, 105, 116, 121] :: natDec p :: rest) := by
+  have hn := (hr_priority_names.2.2.1 p hp)
+  have hx : (prioNames.getD p []).head? ≠ some 45 := by
+    have : ∀ q, q < 9 → (prioNames.getD q []).head? ≠ some 45 := by decide
+    exact this p hp
+  have hy : (natDec p).head? ≠ some 45 := by
+    rw [natDec_small p (by omega)]; simp; omega
+  exact ⟨hrPlan_prio_congr _ _ _ rest (Or.inl (by decide)) (by decide) hx hy (hn.1.trans hn.2.symm),
+    hrPlan_prio_congr _ _ _ rest (Or.inr (by decide)) (by decide) hx hy (hn.1.trans hn.2.symm)⟩
+
+/-! ### containers -/
+
+/-- `container_detect_total`: the choice of decompressor is a total function of the path, decided by the last
+    component's suffix alone: zstandard exactly for `<non-empty stem>.zst`, gzip exactly for `<non-empty stem>.gz`,
+    no decompression for every other name (`.zst` itself, `a.zst.`, `a.ZST`, ...) -/
+theorem container_detect_total (path : Str) :
+    (detect path = .zst ↔ ∃ stem, stem ≠ [] ∧ pyName path = stem ++ sufZst) ∧
+    (detect path = .gz ↔ ∃ stem, stem ≠ [] ∧ pyName path = stem ++ sufGz) ∧
+    (detect path = .plain ↔ ¬ (∃ stem, stem ≠ [] ∧ pyName path = stem ++ sufZst) ∧
+                              ¬ (∃ stem, stem ≠ [] ∧ pyName path = stem ++ sufGz)) := by
+  have hz := detect_zst_iff path
+  have hg := detect_gz_iff path
+  refine ⟨hz, hg, ?_⟩
+  rw [← hz, ← hg]
+  cases detect path <;> simp
+
+/-- `container_roundtrip`: a regular file holding `x` stored for the container its name selects (plain as is,
+    `.zst` / `.gz` compressed) opens to exactly `x`, given the round-trip contract of zstandard and gzip
+    (`Env.Decodes`; the codecs themselves stay trusted).  Standard input is left untouched. -/
+theorem container_roundtrip (E : Env) (enc : Kind → Bs → Bs) (hD : E.Decodes enc) (fs : Str → Node) (stdin : Bs) (path : Str)
+    (x : Bs) (hp : path ≠ dash) (hf : fs path = .file (enc (detect path) x)) :
+    openPath E fs stdin path = .content x stdin :=
+  openPath_file E enc hD fs stdin path x hp hf
+
+/-- data the selected decompressor refuses is an error, never a different log -/
+theorem container_mismatch_refused (E : Env) (fs : Str → Node) (stdin : Bs) (path : Str) (raw : Bs) (hp : path ≠ dash)
+    (hf : fs path = .file raw) :
+    (detect path = .zst → E.zstDec raw = none → openPath E fs stdin path = .failed .zstd) ∧
+    (detect path = .gz → E.gzDec raw = none → openPath E fs stdin path = .failed .gzip) := by
+  constructor <;> intro hk hd <;> simp [openPath, hp, hf, hk, hd]
+
+/-! ### composition: what `hr` emits -/
+
+/-- `hr_output_eq_slice`: for every argument vector that parses to a plan (with a line count ≥ 0) and every set of
+    input files that open to written logs (`Opens`: any mix of plain / .zst / .gz files and standard input, each
+    with or without `<prio>` prefix), `hr` emits, file by file in command-line order, exactly the slice of each
+    written sequence the arguments denote (`slice`: forward = the records at or above the threshold; reverse = the
+    same, last to first; head n = the first n of them; tail n = those among the last n lines), each as the
+    `PenlogRecord` read back (`shown`: record + printed text), and exits with 0 -/
+theorem hr_output_eq_slice (E : Env) (hE : E.LoadsOk) (fs : Str → Node) (stdin : Bs) (argv : List Str) (plan : Plan)
+    (hp : hrPlan argv = .plan plan) (hn : 0 ≤ plan.n) (logs : List (Bool × List Rec))
+    (ho : Opens E fs stdin plan.files logs) (hr : ∀ l ∈ logs, ∀ r ∈ l.2, r.Readable) :
+    hrRun E fs stdin argv =
+      (logs.flatMap (fun l => (slice plan.mode plan.n.toNat plan.prio l.2).map shown), .code 0) := by
+  unfold hrRun
+  simp only [hp]
+  exact hrFiles_written E hE fs plan hn stdin plan.files logs ho hr
+
+/-- every record a run logs (well-formed `LogRec`) is `Readable` once written, so `hr_output_eq_slice` applies to
+    the logs of the real writer -/
+theorem written_readable (host : Str) (lr : LogRec) (h : lr.WF host) (r : Rec)
+    (hf : formatRec host (queuePrepare lr) = some r) : r.Readable := by
+  obtain ⟨p, r', _, _, hf', _, hread, _⟩ := formatRec_spec host (queuePrepare lr) (queuePrepare_wf host lr h)
+  rw [hf] at hf'
+  simp only [Option.some.injEq] at hf'
+  subst hf'
+  exact hread
+
+/-- regular files stored for the container their names select open as `Opens` requires -/
+theorem opens_files (E : Env) (enc : Kind → Bs → Bs) (hD : E.Decodes enc) (fs : Str → Node) (stdin : Bs)
+    (files : List (Str × Bool × List Rec)) (hf : ∀ f ∈ files, f.1 ≠ dash ∧ fs f.1 = .file (enc (detect f.1) (fileOf f.2.1 f.2.2))) :
+    Opens E fs stdin (files.map (·.1)) (files.map (·.2)) := by
+  induction files with
+  | nil => exact .nil stdin
+  | cons f rest ih =>
+    obtain ⟨h1, h2⟩ := hf f (by simp)
+    exact .cons stdin stdin f.1 _ f.2.1 f.2.2 _ (openPath_file E enc hD fs stdin f.1 _ h1 h2)
+      (ih (fun g hg => hf g (by simp [hg])))
+
+/-- with the output closed by its reader after `k` records (`hr ... | head`), under the hypotheses of
+    `hr_output_eq_slice`: `hr` has emitted exactly the first `k` records of that output and exits with 0 -/
+theorem hr_broken_pipe (E : Env) (hE : E.LoadsOk) (fs : Str → Node) (stdin : Bs) (argv : List Str) (plan : Plan)
+    (hp : hrPlan argv = .plan plan) (hn : 0 ≤ plan.n) (logs : List (Bool × List Rec))
+    (ho : Opens E fs stdin plan.files logs) (hr : ∀ l ∈ logs, ∀ r ∈ l.2, r.Readable) (k : Nat)
+    (hk : k < (logs.flatMap (fun l => (slice plan.mode plan.n.toNat plan.prio l.2).map shown)).length) :
+    pipeCut k (hrRun E fs stdin argv) =
+      ((logs.flatMap (fun l => (slice plan.mode plan.n.toNat plan.prio l.2).map shown)).take k, .code 0) := by
+  rw [hr_output_eq_slice E hE fs stdin argv plan hp hn logs ho hr]
+  unfold pipeCut
+  rw [if_pos hk]
+
+/-! #### non-vacuity of the second part -/
+
+/-- a TRACE record with tags, an exception text, microseconds and the offset +05:45 -/
+def lrSample : LogRec :=
+  { name := [103, 46, 120], msg := [104, 105, 10, 0x1F600], levelno := 5, levelname := [84, 82, 65, 67, 69],
+    created := { year := 2021, month := 10, day := 31, hour := 2, minute := 30, second := 0, micro := 620310, off := some 20700 },
+    pathname := [47, 120, 46, 112, 121], lineno := 42, funcName := [102], tags := some [[97], []],
+    excText := some [86, 97, 108, 117, 101, 69, 114, 114, 111, 114], stackInfo := some [83, 116, 97, 99, 107] }
+
+def dtSample2 : DT :=
+  { year := 1999, month := 2, day := 28, hour := 0, minute := 0, second := 0, micro := 0, off := some (-34215) }
+
+/-- a CRITICAL record without tags, naive-looking midnight at UTC, no microseconds, offset -09:30:15 -/
+def lrSample2 : LogRec :=
+  { lrSample with levelno := 50, levelname := [67], tags := none, excText := none, created := dtSample2 }
+
+def hostSample : Str := [104, 111, 115, 116]
+
+theorem lrSample_wf : lrSample.WF hostSample := by
+  simp only [LogRec.WF, lrSample, hostSample]
   decide
+
+theorem lrSample2_wf : lrSample2.WF hostSample := by
+  simp only [LogRec.WF, lrSample2, lrSample, hostSample, dtSample2]
+  decide
+
+/-- an environment satisfying both contracts: `json.loads` by the byte-level parser, identity codecs -/
+def envSample : Env := { loads := loadsWriter, zstDec := some, gzDec := some }
+
+theorem envSample_loads : envSample.LoadsOk := loadsWriter_ok _ _
+
+theorem envSample_decodes : envSample.Decodes (fun _ x => x) := ⟨fun _ => rfl, fun _ => rfl, fun _ => rfl⟩
+
+example : ∃ p line, fromLevel lrSample.levelno = some p ∧ toLevel p = some lrSample.levelno ∧
+    emitLine true hostSample lrSample = some line ∧
+    lineRecord envSample line = .ok (expectRead hostSample (queuePrepare lrSample) p) ∧ linePrioE envSample line = .ok (p : Int) :=
+  record_roundtrip envSample envSample_loads true hostSample lrSample lrSample_wf
+
+/-- the flat records of the two samples -/
+def recSample : Rec := fmtOf hostSample (queuePrepare lrSample) 8
+def recSample2 : Rec := fmtOf hostSample (queuePrepare lrSample2) 2
+
+theorem recSample_readable : recSample.Readable :=
+  written_readable hostSample lrSample lrSample_wf recSample (formatRec_eq _ _ 8 (by decide))
+
+theorem recSample2_readable : recSample2.Readable :=
+  written_readable hostSample lrSample2 lrSample2_wf recSample2 (formatRec_eq _ _ 2 (by decide))
+
+-- an unknown member in front of a written object changes nothing; the record is still read
+example : readObj (([120], JVal.other 7) :: recObj recSample) = .ok (asRead recSample (dtOf recSample)) := by
+  have h := unknown_keys_ignored (([120], JVal.other 7) :: recObj recSample)
+  have hf : (([120], JVal.other 7) :: recObj recSample).filter (fun kv => knownKeys.contains kv.1) = recObj recSample := rfl
+  rw [hf] at h
+  rw [← h]
+  exact readObj_recObj recSample _ recSample_readable.2.2 recSample_readable.2.1
+
+-- `tags` left out of an object reads like `tags: null`
+example : jget ((recObj recSample2).filter (fun kv => kv.1 != kTagsK)) kTagsK = none ∧ kTagsK ∈ optionalKeys := by decide
+
+example : hrPlan [[97, 46, 106, 115, 111, 110], [45]] =
+    .plan { files := [[97, 46, 106, 115, 111, 110], [45]], mode := .forward, n := 100, prio := 6, color := .auto } := by
+  have h := hr_defaults [[97, 46, 106, 115, 111, 110], [45]] (by simp) (by
+    intro f hf
+    simp only [List.mem_cons, List.not_mem_nil, or_false] at hf
+    rcases hf with rfl | rfl
+    · exact Or.inl (by decide)
+    · exact Or.inr rfl)
+  simpa [normPath, pathComps, splitSlash, joinSlash, Gen.C17Hr.defaultLines, Gen.C17Hr.defaultPriority] using h
+
+-- `hr -t x --head` is refused
+example : ∀ p, hrPlan [[45, 116], [120], [45, 45, 104, 101, 97, 100]] ≠ .plan p :=
+  hr_modes_exclusive _ [45, 116] [45, 45, 104, 101, 97, 100] .tail .head (by decide) (by decide) (by decide) (by decide) (by decide)
+
+-- `hr --ta x --rev` is refused as well
+example : ∀ p, hrPlan [[45, 45, 116, 97], [120], [45, 45, 114, 101, 118]] ≠ .plan p :=
+  hr_modes_exclusive_abbrev _ [45, 45, 116, 97] [45, 45, 114, 101, 118] .tail .reverse true true .tail .reverse
+    (by decide) rfl (by decide) rfl (by decide) (by decide) (by decide)
+
+example : detect [97, 46, 106, 115, 111, 110, 46, 122, 115, 116] = .zst ∧ detect [46, 122, 115, 116] = .plain ∧
+    detect [97, 46, 122, 115, 116, 46] = .plain ∧ detect [100, 46, 122, 115, 116, 47, 120, 46, 103, 122] = .gz := by decide
+
+/-- `hr -t -n 1 -p warning a.zst -` : the last line of the file `a.zst` and the last line of standard input, when
+    at or above WARNING -/
+def argvSample : List Str :=
+  [[45, 116], [45, 110], [49], [45, 112], [119, 97, 114, 110, 105, 110, 103], [97, 46, 122, 115, 116], [45]]
+
+def fsSample : Str → Node := fun p => if p = [97, 46, 122, 115, 116] then .file (fileOf true [recSample, recSample2]) else .missing
+
+example : hrRun envSample fsSample (fileOf false [recSample2, recSample]) argvSample = ([shown recSample2], .code 0) := by
+  have hp : hrPlan argvSample = .plan { files := [[97, 46, 122, 115, 116], [45]], mode := .tail, n := 1, prio := 4, color := .auto } := by
+    have hc : classifyAll argvSample = some [.opt .tail false none, .opt .lines false none, .arg [49], .opt .prio false none,
+        .arg [119, 97, 114, 110, 105, 110, 103], .arg [97, 46, 122, 115, 116], .arg [45]] := by decide
+    have h1 : pyInt [49] = some 1 := by decide
+    have h2 : fromStr [119, 97, 114, 110, 105, 110, 103] = some 4 := by decide
+    have h3 : normPath [97, 46, 122, 115, 116] = [97, 46, 122, 115, 116] := by decide
+    have h4 : normPath [45] = [45] := by decide
+    unfold hrPlan
+    rw [hc]
+    simp [runArgs, cluster, applyFlags, setFlag, setValue, OptId.takesArg, ArgSt.close, finish, h1, h2, h3, h4]
+  have ho : Opens envSample fsSample (fileOf false [recSample2, recSample]) [[97, 46, 122, 115, 116], [45]]
+      [(true, [recSample, recSample2]), (false, [recSample2, recSample])] := by
+    refine .cons _ _ _ _ true _ _ ?_ (.cons _ [] _ _ false _ _ (openPath_dash _ _ _) (.nil _))
+    exact container_roundtrip envSample (fun _ x => x) envSample_decodes fsSample _ _ _ (by decide) (by simp [fsSample])
+  have hr : ∀ l ∈ [(true, [recSample, recSample2]), (false, [recSample2, recSample])], ∀ r ∈ l.2, r.Readable := by
+    intro l hl r hr
+    simp only [List.mem_cons, List.not_mem_nil, or_false] at hl
+    rcases hl with rfl | rfl <;> simp only [List.mem_cons, List.not_mem_nil, or_false] at hr <;>
+      rcases hr with rfl | rfl <;> first | exact recSample_readable | exact recSample2_readable
+  rw [hr_output_eq_slice envSample envSample_loads fsSample _ argvSample _ hp (by decide) _ ho hr]
+  have e1 : recSample.prio = 8 := rfl
+  have e2 : recSample2.prio = 2 := rfl
+  simp [slice, e1, e2]
 
 end Gallia.C17
